@@ -16,10 +16,18 @@ BASELINE = os.path.join(core.VERIF, "coverage_baseline.json")
 
 def _function_lines(path):
     """{qualname: {line: source text}} for every function (incl. methods, nested) of the file"""
+    import ast
     src = open(path).read()
     lines = src.splitlines()
     top = compile(src, path, "exec")
     out = {}
+    # the message of an `assert` is evaluated only when the assertion fails: an error path the models do not contain
+    # (assertions are recorded, not executed) — its lines are not gated, however the statement is laid out
+    assert_msg_lines = set()
+    for n in ast.walk(ast.parse(src)):
+        if isinstance(n, ast.Assert) and n.msg is not None:
+            test_lines = set(range(n.test.lineno, (n.test.end_lineno or n.test.lineno) + 1))
+            assert_msg_lines |= set(range(n.msg.lineno, (n.msg.end_lineno or n.msg.lineno) + 1)) - test_lines
 
     def walk(code, prefix):
         for c in code.co_consts:
@@ -33,7 +41,7 @@ def _function_lines(path):
                     tgt = out.setdefault(q, {})
                     walk(c, q)
                 for _, _, ln in c.co_lines():
-                    if ln is not None and ln != c.co_firstlineno and 0 < ln <= len(lines):
+                    if ln is not None and ln != c.co_firstlineno and 0 < ln <= len(lines) and ln not in assert_msg_lines:
                         text = lines[ln - 1].strip()
                         if text and not text.startswith(("\"\"\"", "'''", "#")):
                             tgt[ln] = text
